@@ -6,6 +6,7 @@ Only transport: how an abstract action is *called* on the real object and how th
 from __future__ import annotations
 
 import json
+import os
 import pickle
 from pathlib import Path
 
@@ -42,6 +43,7 @@ ATOM_SCHEMAS = {
     "Str": {"type": "string"}, "Arr": {"type": "array"},
     "ArrNum": {"type": "array", "items": {"type": "number"}},
     "ArrInt": {"type": "array", "items": {"type": "integer"}}, "Any": {},
+    "Obj": {"type": "object", "properties": {"x": {"type": "integer"}}},
 }
 
 
@@ -120,6 +122,10 @@ def _invalid_data_error():
     return _IDE[0]
 
 
+class Undescribable:
+    """A value that no JSON type describes (update_from_data cannot build an element from it)."""
+
+
 class Rejected(Exception):
     """The documented exception of a Reject* action was not raised."""
 
@@ -149,12 +155,18 @@ class Impl:
             g.defaults[cname(n)] = DEFAULT_VALUES[v]
         return g
 
-    def schema(self, o: int) -> dict:
+    def schema(self, o: int, bad: bool = False) -> dict:
+        """The JSON schema of SchemaOthers[o] (properties in the order of the abstract names); with `bad`, one
+        more property of an unknown JSON type between the first property and the others."""
         rec = self.others[o - 1]
         props = {}
-        for n, t in fn(rec["elems"]).items():
+        for k, (n, t) in enumerate(sorted(fn(rec["elems"]).items())):
+            if bad and k == 1:
+                props["bad"] = {"type": "no-such-json-type"}
             (atom,) = tuple(t)
-            props[cname(n)] = dict(ATOM_SCHEMAS[atom])
+            props[cname(n)] = json.loads(json.dumps(ATOM_SCHEMAS[atom]))
+        if bad and "bad" not in props:
+            props["bad"] = {"type": "no-such-json-type"}
         sch = {"$schema": "http://json-schema.org/draft-04/schema", "type": "object", "properties": props}
         if rec["req"]:  # draft-04: "required" must be non-empty
             sch["required"] = sorted(cname(n) for n in rec["req"])
@@ -167,10 +179,36 @@ class Impl:
             return
         raise Rejected(f"{exc.__name__} was not raised")
 
+    def _edit_required(self, g, op: str, names):
+        """One call on the live required-names object of the grammar."""
+        rn = g.required_names
+        cn = {cname(n) for n in names}
+        if op == "add":
+            rn.add(*cn)
+        elif op == "remove":
+            rn.remove(*cn)
+        elif op == "discard":
+            rn.discard(*cn)
+        elif op == "clear":
+            rn.clear()
+        elif op == "ior":
+            rn |= cn
+        elif op == "isub":
+            rn -= cn
+        elif op == "iand":
+            rn &= cn
+        else:
+            raise ValueError(f"unknown required-names operation {op}")
+        if rn is not g.required_names:
+            raise Rejected("the in-place operation did not return the live required-names object")
+
     # -- one abstract action = one public call
     def apply(self, action: str, args: tuple):
         if action == "Copy":
             self.slots[2] = self.slots[1].copy()
+            return
+        if action == "OtherFails":
+            self._expect(Exception, self.G("elsewhere").update_from_data, {"p": kind_value("int"), "bad": Undescribable()})
             return
         s = args[0]
         g = self.slots[s]
@@ -187,8 +225,14 @@ class Impl:
             g.update(self.other(a[0]), excluded_names=[cname(n) for n in sorted(a[1])], merge=a[2])
         elif action == "UpdateFromSchema":
             g.update_from_schema(self.schema(a[0]))
+        elif action == "RejectSchema":
+            self._expect(Exception, g.update_from_schema, self.schema(a[0], bad=True))
+        elif action == "RejectData":
+            self._expect(Exception, g.update_from_data, {cname(a[0]): kind_value("int"), "bad": Undescribable()})
+        elif action == "EditRequired":
+            self._edit_required(g, a[0], a[1])
         elif action == "Reload":
-            path = self.work / "reload.json"
+            path = self.work / f"reload-{os.getpid()}.json"
             g.to_file(path)
             self.slots[s] = self.G("g", file_path=path)
         elif action == "RestrictTo":
